@@ -822,3 +822,131 @@ RULES = {
     'R6': r6_for_continue,
     'R7': r7_derive,
 }
+
+
+# ---------------------------------------------------------------------------------------------------------
+# Rules for the tokenizers of src/text/abstraction.rs (unit `tok`, property C06).  Appended; the rules above
+# are unchanged.
+# ---------------------------------------------------------------------------------------------------------
+
+def _code_hits(line, regex):
+    """matches of regex in `line` that start in code (not in a comment / literal)"""
+    cm = rustscan.code_mask(line)
+    return [mm for mm in re.finditer(regex, line) if cm[mm.start()]]
+
+
+def _postfix_chain(s):
+    """s is a plain postfix chain: IDENT(.IDENT | (ARGS))*  with balanced brackets and no operators at depth 0"""
+    s = s.strip()
+    if not _balanced(s) or not re.match(r'[A-Za-z_]\w*', s):
+        return False
+    mask = rustscan.code_mask(s)
+    depth = 0
+    for p, c in enumerate(s):
+        if not mask[p]:
+            return False            # no literals / comments inside a receiver
+        if c in '([':
+            depth += 1
+        elif c in ')]':
+            depth -= 1
+        elif depth == 0 and not (c.isalnum() or c in '_.'):
+            return False
+    return True
+
+
+def r11_peekable(lines, origin, repo, relfile):
+    """let mut X = RECV.peekable();  ->  let mut X = iter_peekable(RECV);
+    `Iterator::peekable` is a provided trait method, to which Verus cannot attach a specification; the call is
+    routed through the one-line wrapper `iter_peekable` (declared in the overlay, body `it.peekable()`), which
+    carries the assumed contract of `Iterator::peekable`.  Only: a `let` statement on one line whose initialiser
+    is a plain postfix chain ending in `.peekable()`."""
+    out, oo, notes = [], [], []
+    pat = re.compile(r'^(\s*let (?:mut )?\w+ = )(.+)\.peekable\(\);\s*$')
+    if any(_code_hits(l, r'\biter_peekable\b') for l in lines):
+        raise RewriteError("R11: the name iter_peekable is already used in %s" % relfile)
+    for l, o in zip(lines, origin):
+        hits = _code_hits(l, r'\.\s*peekable\b')
+        if hits:
+            mm = pat.match(l)
+            if mm is None or len(hits) != 1 or not _postfix_chain(mm.group(2)):
+                raise RewriteError("R11: unknown `.peekable()` shape at %s:%d: %s" % (relfile, o, l.strip()))
+            out.append("%siter_peekable(%s);" % (mm.group(1), mm.group(2)))
+            notes.append("R11 %s:%d `%s.peekable()` -> `iter_peekable(%s)` (wrapper with body `it.peekable()`; carries the "
+                         "assumed contract of the provided trait method Iterator::peekable)" % (relfile, o, mm.group(2).strip(), mm.group(2).strip()))
+        else:
+            out.append(l)
+        oo.append(o)
+    return out, oo, notes
+
+
+def r12_map_or(lines, origin, repo, relfile):
+    """if RECV.map_or(LIT, |x| BODY) {  ->  if match (RECV) { Some(x) => BODY, None => LIT } {
+    (the definition of Option::map_or, beta-reduced; Verus knows nothing about the result of a closure without a
+    spec).  Only: the whole condition of an `if` on one line; RECV a plain postfix chain; the default LIT a
+    `true` / `false` / integer literal (so that evaluating it lazily instead of eagerly changes nothing); BODY a
+    single expression without `return`, `?`, `|`, braces, `;`."""
+    out, oo, notes = [], [], []
+    pat = re.compile(r'^(\s*(?:\} else )?if )(.+)\.map_or\((true|false|\d+), \|(\w+)\| (.+)\) \{\s*$')
+    for l, o in zip(lines, origin):
+        hits = _code_hits(l, r'\.\s*map_or\b')
+        if hits:
+            mm = pat.match(l)
+            if mm is None or len(hits) != 1:
+                raise RewriteError("R12: unknown `.map_or(..)` shape at %s:%d: %s" % (relfile, o, l.strip()))
+            head, recv, lit, var, body = mm.groups()
+            if not _postfix_chain(recv) or not _balanced(body) or re.search(r'\breturn\b|\?|\||[{};]', body):
+                raise RewriteError("R12: receiver / closure body not a plain expression at %s:%d: %s" % (relfile, o, l.strip()))
+            out.append("%smatch (%s) { Some(%s) => %s, None => %s } {" % (head, recv, var, body, lit))
+            notes.append("R12 %s:%d `%s.map_or(%s, |%s| %s)` -> match on the receiver (definition of Option::map_or)"
+                         % (relfile, o, recv.strip(), lit, var, body))
+        else:
+            out.append(l)
+        oo.append(o)
+    return out, oo, notes
+
+
+def r13_refpat_tuple_while(lines, origin, repo, relfile):
+    """while let Some(&(P1, .., Pn)) = E {  ->  while let Some(t__r) = E { let (P1, .., Pn) = *t__r;
+    (each Pi `_` or an identifier; also the form produced by R8, where the brace is on the next line).  Reference
+    patterns are unsupported; the tuple must be Copy, which rustc checks on the rewritten text as well since `*t__r`
+    moves out of a shared reference otherwise."""
+    out, oo, notes = [], [], []
+    pat = re.compile(r'^(\s*)while let Some\(&\(((?:_|\w+)(?:, (?:_|\w+))*)\)\) = (.*?)( \{)?\s*$')
+    if any(_code_hits(l, r'\bt__r\b') for l in lines):
+        raise RewriteError("R13: the name t__r is already used in %s" % relfile)
+    i = 0
+    while i < len(lines):
+        l, o = lines[i], origin[i]
+        mm = pat.match(l)
+        if mm:
+            ind, pats, e, brace = mm.groups()
+            if not _balanced(e):
+                raise RewriteError("R13: scrutinee not a balanced expression at %s:%d" % (relfile, o))
+            if brace:
+                out.append("%swhile let Some(t__r) = %s { let (%s) = *t__r;" % (ind, e, pats))
+                oo.append(o)
+            else:
+                if i + 1 >= len(lines) or lines[i + 1].strip() != '{':
+                    raise RewriteError("R13: `while let Some(&(..))` head without body brace at %s:%d" % (relfile, o))
+                out.append("%swhile let Some(t__r) = %s" % (ind, e))
+                oo.append(o)
+                out.append(lines[i + 1])
+                oo.append(origin[i + 1])
+                out.append("%s    let (%s) = *t__r;" % (ind, pats))
+                oo.append(o)
+                i += 1
+            notes.append("R13 %s:%d `Some(&(%s))` pattern -> `Some(t__r)` + `let (%s) = *t__r;` (deref binding)" % (relfile, o, pats, pats))
+        else:
+            if _code_hits(l, r'Some\(&\('):
+                raise RewriteError("R13: unknown `Some(&(` pattern shape at %s:%d: %s" % (relfile, o, l.strip()))
+            out.append(l)
+            oo.append(o)
+        i += 1
+    return out, oo, notes
+
+
+RULES.update({
+    'R11': r11_peekable,
+    'R12': r12_map_or,
+    'R13': r13_refpat_tuple_while,
+})
